@@ -108,7 +108,7 @@ class Check:
                 return "known"
         blob = json.dumps(replay_obj, sort_keys=True, default=_default)
         h = hashlib.sha1(blob.encode()).hexdigest()[:12]
-        d = os.path.join(VERIF, "replays", self.prop)
+        d = os.path.join(os.environ.get("VERIF_OUT", VERIF), "replays", self.prop)
         os.makedirs(d, exist_ok=True)
         path = os.path.join(d, f"{h}.json")
         with open(path, "w") as f:
@@ -145,9 +145,15 @@ class Check:
                   violations=len(seen))
         if self.machinery_errors:
             ev["coverage"]["machinery_errors"] = self.machinery_errors[:20]
-        os.makedirs(os.path.join(VERIF, "evidence"), exist_ok=True)
-        with open(os.path.join(VERIF, "evidence", f"{self.prop}.json"), "w") as f:
+        # (VERIF_OUT redirects evidence and replay files of trial runs on seeded changes: /verif/evidence is only
+        #  ever written by runs against /repo itself)
+        out_root = os.environ.get("VERIF_OUT", VERIF)
+        os.makedirs(os.path.join(out_root, "evidence"), exist_ok=True)
+        dst = os.path.join(out_root, "evidence", f"{self.prop}.json")
+        tmp = dst + f".tmp{os.getpid()}"
+        with open(tmp, "w") as f:
             json.dump(ev, f, indent=1, default=_default)
+        os.replace(tmp, dst)                       # atomic: two tiers of one check may finish at the same time
         print(f"[{self.prop}] tier={self.tier} seed={self.seed} evaluations={self.cov['evaluations']} "
               f"distinct_nontrivial={self.cov['distinct_nontrivial']} tlc_states={self.cov['states']} "
               f"traces={self.cov['traces_validated_against_impl']} violations={len(seen)} "
